@@ -20,7 +20,7 @@ for d in sorted((V/'seeded').iterdir()):
             res.append(f"{k}: " + (how if caught else f"NOT caught (exit {v.get('exit')})"))
         else:
             res.append(f"also run against {k}: " + (how if caught else 'silent'))
-    note = j.get('maintainer_note', '')
+    note = j.get('maintainer_note', '') or j.get('why_missed', '')
     if isinstance(note, dict):
         note = '; '.join(f'{a}: {b}' for a, b in note.items())
     note = str(note)
